@@ -39,6 +39,7 @@ type solveOpts struct {
 	needTwo    bool // thorough: two independent solvers must agree on unsat
 	workers    int
 	keepModels bool
+	altSeeds   []int // second chance: additional z3 runs with these seeds race along (any unsat answer is a proof)
 }
 
 type solverRun struct {
@@ -115,6 +116,16 @@ func solveOne(o *Obligation, idx int, opts solveOpts) {
 	}()
 	ctx, cancel := context.WithCancel(context.Background())
 	defer cancel()
+	solvers := solvers
+	if len(opts.altSeeds) > 0 && !opts.needTwo {
+		solvers = append([]solverSpec(nil), solvers...)
+		for _, as := range opts.altSeeds {
+			as := as
+			solvers = append(solvers, solverSpec{fmt.Sprintf("z3-5.1.0#seed%d", as), func(f string, t int, _ int) []string {
+				return []string{"z3-new", fmt.Sprintf("-T:%d", t), fmt.Sprintf("smt.random_seed=%d", as), f}
+			}})
+		}
+	}
 	ch := make(chan solverRun, len(solvers))
 	launched := 0
 	launch := func(i int) {
@@ -124,6 +135,9 @@ func solveOne(o *Obligation, idx int, opts solveOpts) {
 	order := []int{0, 1, 2}
 	if opts.seed%3 == 1 {
 		order = []int{0, 2, 1}
+	}
+	for i := 3; i < len(solvers); i++ {
+		order = append(order, i)
 	}
 	launch(order[0])
 	stagger := time.NewTimer(4 * time.Second)
